@@ -1012,8 +1012,8 @@ class Gen:
                 resp["content"] = {"application/octet-stream": {"schema": {"type": "string", "format": "binary"}}}
                 self.features.add("resp:binary")
             elif r < 0.95:
-                # a combination without a defined meaning (binary schema under a text / JSON media type): its own parsed
-                # value is not asserted, but it must not disturb anything else
+                # a binary schema under a text / JSON media type: still a file object built from the served bytes, and it
+                # must not disturb the responses parsed after it
                 resp["content"] = {rng.choice(["text/csv", "application/json", "text/plain"]): {"schema": {"type": "string", "format": "binary"}}}
                 self.features.add("resp:binary_under_text")
             else:
